@@ -351,6 +351,9 @@ func init() {
 		p.unsupported("verif_str_drop on %v", s)
 		return nil
 	})
+	api("verif_deep_copy", func(p *Path, fr *frame, a []Value, pos token.Pos) Value {
+		return cloneValue(a[0], map[*Value]*Value{})
+	})
 	api("verif_finding", func(p *Path, fr *frame, a []Value, pos token.Pos) Value {
 		p.tags = append(p.tags, constStr(p, a[0], "finding id"))
 		return nil
